@@ -6,6 +6,10 @@ props = sys.argv[2:] or [c["property_id"] for c in json.load(open("/verif/MANIFE
 assert subprocess.run(["git", "-C", "/repo", "status", "--porcelain"], capture_output=True, text=True).stdout.strip() == "", "repo dirty"
 subprocess.run(["git", "-C", "/repo", "apply", patch], check=True)
 res = {}
+import shutil, tempfile
+# evidence files are rewritten by every run: keep the ones of the unchanged tree
+ev_backup = tempfile.mkdtemp(prefix="verif-evidence-")
+shutil.copytree("/verif/evidence", ev_backup, dirs_exist_ok=True)
 try:
     for p in props:
         t0 = time.time()
@@ -14,6 +18,8 @@ try:
         res[p] = (q.returncode, lines[:2], round(time.time() - t0, 1), (q.stderr or "")[-300:] if q.returncode == 2 else "")
 finally:
     subprocess.run(["git", "-C", "/repo", "checkout", "--", "."], check=True)
+    shutil.copytree(ev_backup, "/verif/evidence", dirs_exist_ok=True)
+    shutil.rmtree(ev_backup, ignore_errors=True)
 for p, (rc, lines, dt, err) in res.items():
     print(p, "exit=%d" % rc, "%.0fs" % dt, *(lines or []), err)
 print("CAUGHT-BY:", " ".join(p for p, r in res.items() if r[0] == 1))
